@@ -166,14 +166,29 @@ structure WpIter where
   lge : Event
   deriving Repr, Inhabited
 
-/-- `wpIterator.init`; `kv` is `field.NewFieldsFromKVString` -/
-def wpInit (kv : Bytes → Option Bytes) (buf : Bytes) : Outcome WpIter :=
+/-- the first part of `wpIterator.init`: tags, write-level fields, count; `kv` is `field.NewFieldsFromKVString` -/
+def wpInitCore (kv : Bytes → Option Bytes) (buf : Bytes) : Outcome WpIter :=
   Dec.next 0 buf rpcString fun idx tags =>
   Dec.next idx buf rpcString fun idx flds =>
   Dec.next idx buf unmarshalUint32 fun pos ln =>
     match kv flds with
     | none => .err
     | some wf => .ok { tags := tags, flds := wf, buf := buf, read := false, pos := pos, recs := ln, cur := 0, lge := default }
+
+/-- the validation loop of `init` (commit c6bbc14): `for i := 0; i < wpi.recs; i++ { n, err = unmarshalLogEvent(buf[p:], …); …;
+NewFieldsFromKVString(le.Fields) …; p += n }` — every announced event must decode and its field text must parse -/
+def wpValidate (kv : Bytes → Option Bytes) (buf : Bytes) : Nat → Nat → Outcome Unit
+  | 0, _ => .ok ()
+  | k + 1, p =>
+    Dec.next p buf unmarshalLogEvent fun p' le =>
+      match kv le.fields with
+      | none => .err
+      | some _ => wpValidate kv buf k p'
+
+/-- `wpIterator.init`; whether the packet is validated completely is the regenerated fact `Generated.C13.wpInitValidates` -/
+def wpInit (kv : Bytes → Option Bytes) (buf : Bytes) : Outcome WpIter :=
+  (wpInitCore kv buf).bind fun it =>
+    if Generated.C13.wpInitValidates = true then (wpValidate kv buf it.recs it.pos).bind fun _ => .ok it else .ok it
 
 /-- `wpIterator.Get`: `none` is `io.EOF` (also after a decode error: the batch silently ends there) -/
 def wpGet (kv : Bytes → Option Bytes) (it : WpIter) : Outcome (WpIter × Option Event) :=
